@@ -42,11 +42,15 @@ def log(msg):
 
 
 def load_known():
-    path = os.path.join(VERIF, "known-findings.txt")
+    import glob
+
+    paths = [os.path.join(VERIF, "known-findings.txt")] + sorted(glob.glob(os.path.join(HARNESS, "*", "known-findings.part")))
     out = []
-    if not os.path.exists(path):
-        return out
-    for line in open(path):
+    lines = []
+    for path in paths:
+        if os.path.exists(path):
+            lines += open(path).read().splitlines()
+    for line in lines:
         line = line.strip()
         if not line or line.startswith("#"):
             continue
